@@ -1,11 +1,11 @@
 """C04 — negation and aggregation see the complete relation, each tuple once."""
 from . import core, eng, gen, engcheck
 
-THEOREMS = ["agg_view_each_once", "run_agg_eq_model", "agg_sees_final", "run_agg_rows_set", "second_run_duplicates_agg_view", "run_agg_from_eq_model"]
+THEOREMS = ["agg_view_each_once", "run_agg_eq_model", "agg_sees_final", "run_agg_rows_set", "run_agg_from_eq_model", "agg_view_each_once_from", "run_agg_eq_model_from", "second_run_agg_view_each_once", "second_run_view_witness"]
 TRUSTED = ["Lean 4.33.0 kernel", "axioms: propext, Classical.choice, Quot.sound only (audited per theorem)",
            "statement: Props/C04.lean", "model Model/Engine.lean (aggTuples: the aggregated relation's stored index entries, full index = distinct tuples, "
            "Vec index = one entry per insertion) tied by compiled stratified programs with count/sum/min/max/not at stratum depth 1-3",
-           "duplicate-free inputs and a first run() are hypotheses of the theorems (findings F2, F3, F15 otherwise)"]
+           "duplicate-free row vectors of the start value are a hypothesis of the each-once theorems (finding F15 otherwise); since fix 8b2e261 they hold from any program value (F2, F3 closed)"]
 
 
 def build(rng, tier):
@@ -21,13 +21,13 @@ def build(rng, tier):
             inst = f"{pid}_{j}"
             cases.append(engcheck.Case(pid, inst, engcheck.std_history(inst, pid, inp), {"inp": inp, "kind": "agg"}))
             if j % 4 == 3:
-                # known-finding classes: duplicate rows in the input (F15) and a second run() (F2)
+                # known-finding class: duplicate rows in the input (F15); a second run() (F2, fixed by 8b2e261) must pass
                 r2 = rng.fork(f"{pid}d{j}")
                 dup = {r: list(rows) + ([rows[0]] if rows and r2.chance(1, 2) else []) for r, rows in inp.items()}
                 inst2 = f"{pid}_{j}d"
                 cases.append(engcheck.Case(pid, inst2, engcheck.std_history(inst2, pid, dup), {"inp": dup, "kind": "dup-input", "class": "F15"}))
                 inst3 = f"{pid}_{j}r"
-                cases.append(engcheck.Case(pid, inst3, engcheck.std_history(inst3, pid, inp, [f"eng run {inst3}", f"eng dump {inst3}"]), {"inp": inp, "kind": "rerun", "class": "F2"}))
+                cases.append(engcheck.Case(pid, inst3, engcheck.std_history(inst3, pid, inp, [f"eng run {inst3}", f"eng dump {inst3}"]), {"inp": inp, "kind": "rerun", "was": "F2"}))
     return progs, mods, cases
 
 
@@ -45,8 +45,6 @@ def known(c, p, impl, model):
     if model is None or impl != model: return None
     if cl == "F15" and any(len(c.meta["inp"].get(r, [])) != len(set(c.meta["inp"].get(r, []))) for r in range(len(p["rels"]))):
         return ("F15", "count/sum aggregate over a relation whose input vector repeats a row counts the row per occurrence (statement: each distinct tuple once)")
-    if cl == "F2":
-        return ("F2", "a second run() re-inserts every row into the Vec-backed indices; aggregates over them (count/sum) see each tuple twice")
     return None
 
 
